@@ -48,7 +48,7 @@ SEED_B = """seed deck b
 
 m1 13027 1
 m2 8016 1
-imp:n 1 1 2 0 1 2
+imp:n 2 1 2 0 1 2
 """
 SEED_C = """seed deck c
 1 0 -1 fill=1 (1)
